@@ -139,7 +139,7 @@ class ContentIndexParser:
                 elif row.type == "ignore_row":
                     self._process_ignore_row(row.sheet_name[0])
                 else:
-                    LOGGER.error(f"invalid type: '{row.type}'")
+                    LOGGER.critical(f"invalid type: '{row.type}'")
 
     def _add_template(self, row, update_duplicates=False):
         sheet_name = row.sheet_name[0]
